@@ -206,6 +206,14 @@ impl C17 {
     if l.get_phase().get_index() as i64 != d - 1 {
       out.fail(env, viol("six", "phase", case, &[("ly", y), ("lm", m), ("ld", d)], format!("L({},{},{})", y, m, d), (d - 1).to_string(), l.get_phase().get_index().to_string()));
     }
+    // minor Ren: the month starts at (month number - 1) mod 6 (a leap month uses its own number), the day counts on from the month
+    let em = (m.abs() - 1).rem_euclid(6);
+    let ed = (em + d - 1).rem_euclid(6);
+    let gm = l.get_lunar_month().get_minor_ren().get_index() as i64;
+    let gd = l.get_minor_ren().get_index() as i64;
+    if gm != em || gd != ed {
+      out.fail(env, viol("six", "minor_ren", case, &[("ly", y), ("lm", m), ("ld", d)], format!("L({},{},{})", y, m, d), format!("month {} day {}", em, ed), format!("month {} day {}", gm, gd)));
+    }
   }
 
   /// a = [date index, hour]: hour twelve spirits and hour nine star on both views
@@ -250,9 +258,10 @@ impl C17 {
     let r = guard(|| {
       let sh = t.get_sixty_cycle_hour();
       let lh = t.get_lunar_hour();
-      (guard(|| (sh.get_nine_star().get_index() as i64, lh.get_nine_star().get_index() as i64)), sh.get_twelve_star().get_index() as i64, lh.get_twelve_star().get_index() as i64)
+      let ld = lh.get_lunar_day();
+      (guard(|| (sh.get_nine_star().get_index() as i64, lh.get_nine_star().get_index() as i64)), sh.get_twelve_star().get_index() as i64, lh.get_twelve_star().get_index() as i64, (lh.get_minor_ren().get_index() as i64, ld.get_month() as i64, ld.get_day() as i64))
     });
-    let (sln, st, lt) = match r {
+    let (sln, st, lt, (mr, lmo, lda)) = match r {
       Ok(x) => x,
       Err(e) => {
         out.fail(env, viol("hour", "panics", case, &k, format!("{} {:02}:00", c.fmt(i), h), "hour almanac values".into(), e));
@@ -269,6 +278,11 @@ impl C17 {
     };
     if out.wants_sample("hour", nt) {
       out.sample("hour", nt, || json!({"instant": format!("{} {:02}:00", c.fmt(i), h), "ascending": asc, "hour_nine_star": NINE[sn as usize], "hour_twelve_star": st}));
+    }
+    // hour minor Ren: counts on from the lunar day's value by the double-hour index (子 = 0)
+    let e_mr = ((lmo.abs() - 1) + (lda - 1) + (h + 1) / 2).rem_euclid(6);
+    if mr != e_mr {
+      out.fail(env, viol("hour", "hour_minor_ren", case, &k, format!("{} {:02}:00 = lunar month {} day {}", c.fmt(i), h, lmo, lda), e_mr.to_string(), mr.to_string()));
     }
     if st != e_twelve || lt != e_twelve {
       out.fail(env, viol("hour", "hour_twelve_star", case, &k, format!("{} {:02}:00", c.fmt(i), h), e_twelve.to_string(), format!("instant view {} lunar-hour view {}", st, lt)));
@@ -336,7 +350,7 @@ impl Prop for C17 {
   }
   fn meta(&self, env: &Env) -> Meta {
     Meta {
-      rule: format!("Oracle from (JDN+49) mod 60, the library's Jie/solstice days and the lunar date: duty = (day branch - Jie-month branch) mod 12; twelve spirits = (branch - start(month or day branch)) mod 12 with start 寅申→子 卯酉→寅 辰戌→辰 巳亥→午 子午→申 丑未→戌; mansion luminary == weekday, both routes equal, +1 per day; six-day star = (|month|+day-2) mod 6; phase = day-1; year nine star = (1864-y) mod 9; month nine star 八白/五黄/二黑 at the Yin month by year-branch group, descending; day nine star ascending from the Jiazi day nearest the winter solstice, descending from the one nearest the summer solstice (both accepted on a tie); hour nine star ascending from the winter-solstice day / descending from the summer-solstice day from 一白·四绿·七赤 / 九紫·六白·三碧 by day-branch group. Generators: `day`: {}; `six`: every day of every leap month of every leap year (and its regular twin); `hour`: {}; `year`: every year -1..9999 with its 12 sexagenary months and its lunar months. Non-trivial: leap-month days, days within 30 days of a solstice, days between the December solstice and Dec 31, hour 23, every year.", env.tier.pick("every date of ~230 stratified years (every 50th + special years) and all dates Dec 15..Jan 15 and Jun 15..Jul 15 of every 10th year", "every civil date 0001-01-01..9998-12-31"), env.tier.pick("all 24 hours of 2,000 proptest days plus all days Dec 18..31 of every 40th year", "all 24 hours of 40,000 proptest days plus all days Dec 18..31 of every 4th year")),
+      rule: format!("Oracle from (JDN+49) mod 60, the library's Jie/solstice days and the lunar date: duty = (day branch - Jie-month branch) mod 12; twelve spirits = (branch - start(month or day branch)) mod 12 with start 寅申→子 卯酉→寅 辰戌→辰 巳亥→午 子午→申 丑未→戌; mansion luminary == weekday, both routes equal, +1 per day; six-day star = (|month|+day-2) mod 6; phase = day-1; minor Ren = (|month|-1) mod 6 for the month, + day-1 for the day, + double-hour index for the hour; year nine star = (1864-y) mod 9; month nine star 八白/五黄/二黑 at the Yin month by year-branch group, descending; day nine star ascending from the Jiazi day nearest the winter solstice, descending from the one nearest the summer solstice (both accepted on a tie); hour nine star ascending from the winter-solstice day / descending from the summer-solstice day from 一白·四绿·七赤 / 九紫·六白·三碧 by day-branch group. Generators: `day`: {}; `six`: every day of every leap month of every leap year (and its regular twin); `hour`: {}; `year`: every year -1..9999 with its 12 sexagenary months and its lunar months. Non-trivial: leap-month days, days within 30 days of a solstice, days between the December solstice and Dec 31, hour 23, every year.", env.tier.pick("every date of ~230 stratified years (every 50th + special years) and all dates Dec 15..Jan 15 and Jun 15..Jul 15 of every 10th year", "every civil date 0001-01-01..9998-12-31"), env.tier.pick("all 24 hours of 2,000 proptest days plus all days Dec 18..31 of every 40th year", "all 24 hours of 40,000 proptest days plus all days Dec 18..31 of every 4th year")),
       assumptions: vec![
         "Jie and solstice days are the library's own; the sexagenary month branch comes from the C08 oracle, not from the library's month object".into(),
         "At hour 23 the lunar-hour view may use the lunar day's own pillar or the next day's (DESIGN 3.4); the instant view must use the next day's".into(),
